@@ -153,3 +153,36 @@ theorem C03_mstep_matches_moments (cfg : MlCfg (C+1) D ℝ) (p : Params (C+1) D 
     have := hpos c
     field_simp
     ring
+
+/-- the same training configuration with the per-component variance floors renumbered -/
+def BobEM.MlCfg.relabel {C D : ℕ} (cfg : MlCfg C D ℝ) (σ : Equiv.Perm (Fin C)) : MlCfg C D ℝ :=
+  { cfg with varFloor := fun c => cfg.varFloor (σ c) }
+
+/-- the same mixture with its components numbered differently -/
+def BobEM.Params.relabel' {C D : ℕ} (p : Params C D ℝ) (σ : Equiv.Perm (Fin C)) : Params C D ℝ :=
+  { weights := fun c => p.weights (σ c), means := fun c => p.means (σ c), variances := fun c => p.variances (σ c) }
+
+/-- ML training does not depend on how the components are numbered: one iteration from the relabelled
+model (floors relabelled alike) gives the relabelled result and the same criterion, for all switch
+combinations, with count and variance floors active or not (iterating the statement gives the same
+for any number of iterations, since the criterion, on which the stopping test runs, is unchanged) -/
+theorem C03_iteration_relabel_equivariant (cfg : MlCfg (C+1) D ℝ) (p : Params (C+1) D ℝ)
+    (σ : Equiv.Perm (Fin (C+1))) (xs : List (Fin D → ℝ)) :
+    gmmMlIter (cfg.relabel σ) xs (p.relabel' σ) = (((gmmMlIter cfg xs p).1).relabel' σ, (gmmMlIter cfg xs p).2) := by
+  have hl : ∀ y c, lwl (p.relabel' σ) y c = lwl p y (σ c) := fun _ _ => rfl
+  have hL : ∀ y, logLik (p.relabel' σ) y = logLik p y := by
+    intro y
+    rw [logLik_eq, logLik_eq]
+    simp only [hl]
+    rw [Equiv.sum_comp σ fun c => Real.exp (lwl p y c)]
+  have hst : eStep (p.relabel' σ) xs
+      = { n := fun c => (eStep p xs).n (σ c), sumPx := fun c => (eStep p xs).sumPx (σ c),
+          sumPxx := fun c => (eStep p xs).sumPxx (σ c), ll := (eStep p xs).ll, t := (eStep p xs).t } := by
+    simp only [eStep, hl, hL, funext hL]
+  simp only [gmmMlIter, hst]
+  refine Prod.ext ?_ rfl
+  obtain ⟨um, uv, uw, thr, fl⟩ := cfg
+  cases um <;> cases uv <;> cases uw <;>
+    simp [mlMStep, mlMeans, mlRawVar, MlCfg.relabel, Params.relabel']
+  all_goals (try constructor)
+  all_goals (funext c d; congr)
